@@ -480,6 +480,17 @@ class Master(loader.Loader):
 
                 self._update_task(app, servername, why=None)
 
+            # Placement that is kept must carry the data the scheduler holds
+            # (e.g. the expiry is new if the placement was not restored
+            # verbatim).
+            for app in correct & current:
+                placement_data = self._placement_data(app)
+                appnode = os.path.join(placement_node, app)
+                if self.backend.get_default(appnode) != placement_data:
+                    _LOGGER.info('Updating: %s - %s,%s',
+                                 servername, app, self.cell.apps[app].identity)
+                    self.backend.put(appnode, placement_data)
+
         self._save_placement(placement)
         self.up_to_date = True
 
